@@ -6,6 +6,19 @@ open PewDriver Pew.Convolve
 
 def jRats (l : List Rat) : Json := jList jRat l
 
+/-- a rational square root good to 30 significant digits (`⌊√(n·d·10⁶⁰)⌋ / (d·10³⁰)` for `q = n/d > 0`, 0 for
+`q ≤ 0`): the value the driver gives the opaque `sqrt` parameter of `erfinvWith` -/
+def sqrtQ (q : Rat) : Rat :=
+  if q ≤ 0 then 0
+  else
+    let n := q.num.toNat
+    let d := q.den
+    ((Nat.sqrt (n * d * 10 ^ 60) : Nat) : Rat) / ((d * 10 ^ 30 : Nat) : Rat)
+
+/-- `erfinvWith` over `Rat` with π and the value of `log1p(-x·x)` supplied by the caller and `sqrtQ` for sqrt -/
+def erfinvRat (pi l x : Rat) : Rat :=
+  erfinvWith (K := Rat) ⟨id, pi, fun _ => l, sqrtQ⟩ x
+
 def handle (op : String) (req : Json) : R Json := do
   match op with
   | "c18.convolve" =>
@@ -35,8 +48,26 @@ def handle (op : String) (req : Json) : R Json := do
     let psf ← getList asRat req "psf"
     if psf.isEmpty || x.isEmpty then throw "empty input"
     let c := fullConv x psf
+    -- specification (deconvolve_fullConv): the leading n − 2 samples of the signal
     pure (jObj [("c", jRats c), ("model", jRats (deconvolve c psf)), ("model_same", jRats (deconvolveSame c psf)),
-                ("spec", jRats (x.take (c.length - psf.length - 1)))])
+                ("terminates", jBool (quotientTerminates c psf)),
+                ("spec", jRats (x.take (x.length - 2)))])
+  | "c18.deconv_raw" =>
+    -- any input array, a full convolution or not (inputs no longer than the kernel included)
+    let c ← getList asRat req "c"
+    let psf ← getList asRat req "psf"
+    if psf.isEmpty || c.isEmpty then throw "empty input"
+    pure (jObj [("model", jRats (deconvolve c psf)), ("model_same", jRats (deconvolveSame c psf)),
+                ("terminates", jBool (quotientTerminates c psf)),
+                ("r", jNat (nextPow2 (max c.length psf.length)))])
+  | "c18.erfinv" =>
+    let xs ← getList asRat req "xs"
+    let ls ← getList asRat req "ls"
+    let pi ← getRat req "pi"
+    if xs.length != ls.length then throw "xs and ls differ in length"
+    let vals := (xs.zip ls).map (fun (x, l) => erfinvRat pi l x)
+    let negs := (xs.zip ls).map (fun (x, l) => erfinvRat pi l (-x))
+    pure (jObj [("model", jRats vals), ("model_neg", jRats negs)])
   | "c18.erf" =>
     let xs ← getList asRat req "xs"
     pure (jObj [("model", jRats (xs.map erfApprox))])
@@ -60,8 +91,11 @@ def handle (op : String) (req : Json) : R Json := do
     let b ← getRat req "b"
     let scale ← getRat req "scale"
     let shift ← getRat req "shift"
-    let (x, y) := triangular size a b scale shift
-    pure (jObj [("x", jRats x), ("y", jRats y)])
+    let rows := triangular size a b scale shift
+    -- decidable hypotheses of `triangular_spec`
+    let inside := (axisSym size scale shift).any (fun v => decide (a < v) && decide (v < b))
+    pure (jObj [("x", jRats (rows.map Prod.fst)), ("y", jRats (rows.map Prod.snd)),
+                ("hyp", jBool (decide (a < b) && inside))])
   | _ => throw s!"unknown op {op}"
 
 end PewDriver.C18
